@@ -15,6 +15,18 @@ func addrOfPub(pub []byte) rtypes.Address {
 }
 
 // Begin starts block Height+1 with a Tendermint-faithful LastCommitInfo.
+// Quiet reports whether block h lies in the "quiet window" around the applying height of a proposal:
+// half of those windows are generated without absences, evidence and stake-changing transactions, so that
+// a parameter change is the ONLY thing that happens (state derived from parameters must follow it).
+func (s *Sim) Quiet(h int64) bool {
+	for _, p := range s.Props {
+		if h >= p.Applying && h <= p.Applying+2 && (p.Applying+int64(len(p.Hash)))%2 == int64(p.Hash[0])%2 {
+			return true
+		}
+	}
+	return false
+}
+
 func (s *Sim) Begin() bool {
 	h := s.Height + 1
 	s.Time += int64(s.R.Range(1, 5))
@@ -32,6 +44,9 @@ func (s *Sim) Begin() bool {
 			if s.R.Chance(12) || (s.absentIdx == i && s.absentLeft > 0) {
 				signed = false
 			}
+			if s.Quiet(h) {
+				signed = true
+			}
 			votes = append(votes, appdrv.Vote{Addr: v.Addr, Power: v.Power, Signed: signed})
 		}
 		if s.absentLeft > 0 {
@@ -42,7 +57,7 @@ func (s *Sim) Begin() bool {
 		}
 	}
 	var evid []rtypes.Address
-	if h >= 2 && s.R.Chance(12) {
+	if h >= 2 && s.R.Chance(12) && !s.Quiet(h) {
 		n := s.R.Pick(6, 2, 1) + 1
 		for i := 0; i < n; i++ {
 			switch s.R.Pick(6, 2, 1) {
